@@ -6,6 +6,7 @@ mod c02;
 mod c03;
 mod c04;
 mod c05;
+mod c05b;
 mod c06;
 mod c07;
 mod c08;
@@ -60,7 +61,7 @@ fn main() {
         "c08" => c08::emit(&mut e, seed, thorough),
         "c07" => c07::emit(&mut e, seed, thorough),
         "c06" => c06::emit(&mut e, seed, thorough),
-        "c05" => c05::emit(&mut e, seed, thorough),
+        "c05" => { c05::emit(&mut e, seed, thorough); c05b::emit(&mut e, seed, thorough) }
         "c12" => c12::emit(&mut e, seed, thorough),
         "c20" => c20::emit(&mut e, seed, thorough),
         "c09" => c09::emit(&mut e, seed, thorough),
